@@ -13,6 +13,7 @@ import sys
 import types
 
 sys.path.insert(0, os.path.dirname(os.path.abspath(__file__)))
+from _report import spread  # noqa: E402
 from vmref import assemble, op, G  # noqa: E402
 import fickling.fickle as fk  # noqa: E402
 import fickling.analysis as fa  # noqa: E402
@@ -68,7 +69,9 @@ shared = [1, 2]
 BASES = []
 for proto in range(0, 6):
     for name, obj in (("int", 7), ("nested", {"a": [1, (2, 3)], "b": "x"}), ("shared", [shared, shared, {"k": shared}]), ("inst", Inst([1, 2])),
-                      ("effects", [WithEffect(1), WithEffect(2), WithEffect(3)]), ("many-memo", [[i] for i in range(300)])):
+                      ("effects", [WithEffect(1), WithEffect(2), WithEffect(3)]), ("many-memo", [[i] for i in range(300)]),
+                      # globals the pickler writes under their Python 2 names below protocol 3 (resolved through the unpickler's renaming)
+                      ("py2-named-globals", [{1, 2}, frozenset({3}), range(3), bytearray(b"ab"), complex(1, 2)])):
         BASES.append((f"{name}/p{proto}", pickle.dumps(obj, proto), obj))
 BASES.append(("asm-sparse-put5", assemble([op("EMPTY_LIST"), op("BINPUT", 5), op("BININT1", 1), op("APPEND"), op("BINGET", 5), op("POP"), op("STOP")]), [1]))
 BASES.append(("asm-put-from-1", assemble([op("MARK"), op("BININT1", 1), op("PUT", 1), op("BININT1", 2), op("PUT", 2), op("LIST"), op("PUT", 3), op("STOP")]), [1, 2]))
@@ -171,4 +174,4 @@ for bname, base, obj in BASES:
                     fails.append(dict(case, what="fickling rates the rewritten pickle LIKELY_SAFE"))
             except Exception as e:  # noqa
                 fails.append(dict(case, what=f"fickling cannot analyse the rewritten pickle: {type(e).__name__}: {e}"[:160]))
-print(json.dumps({"bounded": True, "bases": len(BASES), "modes": len(MODES), "cases": n, "n_failures": len(fails), "failures": fails[:120]}, default=str))
+print(json.dumps({"bounded": True, "bases": len(BASES), "modes": len(MODES), "cases": n, "n_failures": len(fails), "failures": spread(fails, lambda f: (f.get("mode"), f.get("loader"), f["what"][:40]), per=4)}, default=str))
